@@ -24,7 +24,7 @@ from pyvc import contracts as C  # noqa: E402
 from pyvc import verify as V  # noqa: E402
 
 TIERS = {
-    "quick": dict(timeout_ms=10000, xcheck=60, task_s=240),
+    "quick": dict(timeout_ms=10000, xcheck=60, task_s=420),
     "thorough": dict(timeout_ms=60000, xcheck=1500, task_s=1500),
 }
 LEDGER_KINDS = ("ensures:", "inv-entry:", "inv-preserved:", "decreases", "frame:", "raises-only-if:", "raises-iff:", "lemma:",
